@@ -183,16 +183,16 @@ theorem shape_survivors (isGen : α → Prop) (isNew : α → Bool) (genome out 
     · have := hgen x hx
       refine ⟨?_, ?_, ?_⟩
       · simpa [List.filter_cons, this] using i1.cons g
-      · simp [List.filter_cons, this]; omega
+      · simp [this]; omega
       · simp; omega
     · refine ⟨?_, ?_, ?_⟩
       · simpa [List.filter_cons, hg] using i1.cons_cons g
-      · simp [List.filter_cons, hg]; omega
+      · simp [hg]; omega
       · simp; omega
     · have := hgen x hx
       refine ⟨?_, ?_, ?_⟩
       · simpa [List.filter_cons, hg, this] using i1.cons_cons g
-      · simp [List.filter_cons, hg, this]; omega
+      · simp [hg, this]; omega
       · simp; omega
 
 /-- the rates are probabilities (`random_bool` accepts them) -/
